@@ -260,17 +260,35 @@ Lemma mbap_err st b st' b' e : wf b -> st_ok st -> mbap_parse st b = (st', b', E
   (exists k, b' = consume k b /\ k <= buf_len b) /\
   (forall fut F fi, 0 < F -> ref_from F st (b_pend b ++ fut) fi = ([], EndBad e)).
 Proof. intros Hwf Hst Ep. via_sparse Hwf Hst Ep st b. eapply parse_bad; eassumption. Qed.
+Lemma mbap_err' st b st' b' e : wf b -> st_ok st -> mbap_parse st b = (st', b', Err e) ->
+  (exists k, b' = consume k b /\ k <= buf_len b) /\
+  (forall fut F fi, length (b_pend b ++ fut) < F -> ref_from F st (b_pend b ++ fut) fi = ([], EndBad e)).
+Proof. intros Hwf Hst Ep. destruct (mbap_err _ _ _ _ _ Hwf Hst Ep) as (Hk & Hr). split; [exact Hk|]. intros fut F fi HF. apply Hr. lia. Qed.
 Lemma mbap_panic st b st' b' : wf b -> st_ok st -> mbap_parse st b <> (st', b', Panic).
 Proof. intros Hwf Hst Ep. pose proof (mbap_parse_no_panic st b Hwf Hst) as H. rewrite Ep in H. now apply H. Qed.
 Lemma mbap_need_cap st : st_ok st -> need st <= cap.
 Proof. destruct st; cbn; unfold cap, buffer_capacity; lia. Qed.
 
-Definition mbap_nf_ref := nf_ref pstate PTcp mbap_parse Begin st_ok need cons_need ref ref_from
-  H_mk (fun _ => eq_refl) I (fun _ _ _ => eq_refl) ltac:(cbn; lia) mbap_need_cap stuck_eof mbap_none mbap_some mbap_err mbap_panic.
-Definition mbap_run_ref := run_ref pstate PTcp mbap_parse Begin st_ok need cons_need ref ref_from
-  H_mk (fun _ => eq_refl) I (fun _ _ _ => eq_refl) ltac:(cbn; lia) mbap_need_cap stuck_eof mbap_none mbap_some mbap_err mbap_panic.
-Definition mbap_session_ref := session_ref pstate PTcp mbap_parse Begin st_ok need cons_need ref ref_from
-  H_mk (fun _ => eq_refl) I (fun _ _ _ => eq_refl) ltac:(cbn; lia) mbap_need_cap stuck_eof mbap_none mbap_some mbap_err mbap_panic.
-Definition mbap_nf_no_panic := nf_no_panic pstate PTcp mbap_parse Begin st_ok need cons_need ref ref_from
-  H_mk (fun _ => eq_refl) I (fun _ _ _ => eq_refl) ltac:(cbn; lia) mbap_need_cap stuck_eof mbap_none mbap_some mbap_err mbap_panic.
+Lemma all_true (n : net) : Forall (fun _ : list N => True) n.
+Proof. induction n; constructor; auto. Qed.
+Definition mbap_nf_ref fuel st b n fi F Hwf := nf_ref pstate PTcp mbap_parse Begin st_ok need cons_need ref ref_from
+  (fun _ => True) I (fun _ _ _ _ => I) (fun _ _ _ => I) (fun _ _ _ => I)
+  H_mk (fun _ => eq_refl) I (fun _ _ _ => eq_refl) ltac:(cbn; lia) mbap_need_cap stuck_eof
+  (fun st b st' b' Hwf _ => mbap_none st b st' b' Hwf) (fun st b st' b' f Hwf _ => mbap_some st b st' b' f Hwf)
+  (fun st b st' b' e Hwf _ => mbap_err' st b st' b' e Hwf) (fun st b st' b' Hwf _ => mbap_panic st b st' b' Hwf) fuel st b n fi F Hwf I (all_true n).
+Definition mbap_run_ref fuel b n fi F Hwf := run_ref pstate PTcp mbap_parse Begin st_ok need cons_need ref ref_from
+  (fun _ => True) I (fun _ _ _ _ => I) (fun _ _ _ => I) (fun _ _ _ => I)
+  H_mk (fun _ => eq_refl) I (fun _ _ _ => eq_refl) ltac:(cbn; lia) mbap_need_cap stuck_eof
+  (fun st b st' b' Hwf _ => mbap_none st b st' b' Hwf) (fun st b st' b' f Hwf _ => mbap_some st b st' b' f Hwf)
+  (fun st b st' b' e Hwf _ => mbap_err' st b st' b' e Hwf) (fun st b st' b' Hwf _ => mbap_panic st b st' b' Hwf) fuel b n fi F Hwf I (all_true n).
+Definition mbap_session_ref n fi F := session_ref pstate PTcp mbap_parse Begin st_ok need cons_need ref ref_from
+  (fun _ => True) I (fun _ _ _ _ => I) (fun _ _ _ => I) (fun _ _ _ => I)
+  H_mk (fun _ => eq_refl) I (fun _ _ _ => eq_refl) ltac:(cbn; lia) mbap_need_cap stuck_eof
+  (fun st b st' b' Hwf _ => mbap_none st b st' b' Hwf) (fun st b st' b' f Hwf _ => mbap_some st b st' b' f Hwf)
+  (fun st b st' b' e Hwf _ => mbap_err' st b st' b' e Hwf) (fun st b st' b' Hwf _ => mbap_panic st b st' b' Hwf) n fi F (all_true n).
+Definition mbap_nf_no_panic fuel st b n fi Hwf := nf_no_panic pstate PTcp mbap_parse Begin st_ok need cons_need ref ref_from
+  (fun _ => True) I (fun _ _ _ _ => I) (fun _ _ _ => I) (fun _ _ _ => I)
+  H_mk (fun _ => eq_refl) I (fun _ _ _ => eq_refl) ltac:(cbn; lia) mbap_need_cap stuck_eof
+  (fun st b st' b' Hwf _ => mbap_none st b st' b' Hwf) (fun st b st' b' f Hwf _ => mbap_some st b st' b' f Hwf)
+  (fun st b st' b' e Hwf _ => mbap_err' st b st' b' e Hwf) (fun st b st' b' Hwf _ => mbap_panic st b st' b' Hwf) fuel st b n fi Hwf I (all_true n).
 End Inst.
